@@ -8,7 +8,7 @@ tie   : T-gen (GetStartBucketIndex / GetNextBucketIndex / GetMaxProbe / UpdateMa
 oracle: std::map twin inside the harness (independent of the Coq model)."""
 import os, re
 
-GEN = ['gen_unlimp.json', 'gen_limp1.json', 'gen_limp1t.json', 'gen_limp1f.json', 'gen_lim4.json', 'gen_limp.json', 'gen_open2n2w.json', 'gen_base.json', 'gen_policy.json', 'gen_limp4.json', 'gen_open2n2.json', 'gen_openn1.json', 'gen_open8.json']
+GEN = ['gen_openn1_ops.json', 'gen_unlimp.json', 'gen_limp1.json', 'gen_limp1t.json', 'gen_limp1f.json', 'gen_lim4.json', 'gen_limp.json', 'gen_open2n2w.json', 'gen_base.json', 'gen_policy.json', 'gen_limp4.json', 'gen_open2n2.json', 'gen_openn1.json', 'gen_open8.json']
 
 ITEMS = {'a': (4, 4, 0), 'b': (8, 4, 0), 'c': (8, 8, 0), 'd': (24, 8, 0), 'e': (40, 8, 0), 'f': (16, 16, 0), 'g': (1, 1, 0),
          'h': (2, 2, 0), 'u': (4, 4, 0), 'z': (12, 4, 0), 't': (3, 1, 0), 'n': (8, 4, 1), 'm': (24, 8, 1), 'x': (8, 4, 2), 'y': (40, 8, 2)}
@@ -16,6 +16,7 @@ ITEMS = {'a': (4, 4, 0), 'b': (8, 4, 0), 'c': (8, 8, 0), 'd': (24, 8, 0), 'e': (
 CONFIGS = {
     'harness1': ['S.L4.b.f', 'S.L4.b.q', 'S.L4.d.p', 'M.L4.a.p', 'S.L1.c.q', 'S.L2.a.p', 'S.L2.n.q'],
     'harness5': ['M.L3.x.q', 'S.L3.g.f', 'B.L4.b.q', 'T.L4.b.q', 'S.L4.b.v', 'S.L4.u.n', 'S.L4.z.p'],
+    'harness6': ['S.N2.b.q', 'M.N4.a.q', 'S.N6.x.q', 'S.N7.b.q'],
     'harness2': ['S.LP8.c.q', 'S.LP8.b.f', 'M.LP4.a.q', 'S.LP3.d.p', 'S.LQ4.b.q', 'S.LQ2.c.f', 'M.LQ1.a.q', 'S.LF.b.q', 'M.LF.n.p',
                  'S.UP.b.q', 'M.UP.d.f', 'S.ON.b.q', 'S.ON.c.f', 'M.ON.a.p'],
     'harness3': ['S.O3.b.f', 'S.O3.b.q', 'M.O3.d.p', 'S.O2.a.p', 'S.O2.n.q', 'S.O1.c.q', 'M.O1.x.p', 'S.N3.b.q', 'M.N3.a.f',
@@ -122,6 +123,7 @@ def gen_script(r, p, nops, style):
             if style == 'fail' and p['failinj'] and r.chance(1, 4):
                 ops.append('J %d %d %d' % (k, val(), r.below(max(1, len(live) + 2)))); live.add(k)
             elif p['nomem'] and r.chance(1, 7): ops.append('Z %d %d' % (k, val())); live.add(k)
+            elif r.chance(1, 12): ops.append('%s %d %d' % (r.choice(['IF', 'IC']), k, val()))
             elif r.chance(1, 6): ops.append('A %d %d' % (k, val())); live.add(k)
             else: ops.append('I %d %d' % (k, val())); live.add(k)
         elif x < 10 * grow_bias // 2 + 150:
@@ -223,6 +225,29 @@ def gen_cases(ctx, scale):
                                 ops += ['F %d' % k for k in ks] + ['N', 'T', 'H']
                                 ops += ['R %d' % k for k in ks if k != ks[slot]][:1] + ['F %d' % k for k in ks] + ['C 1']
                     out[tu].append(case_line(p, ls, hm, ' '.join(ops)))
+    # aimed (seed C01-d): a FAILED insertion (creator throws after writing the key bytes / the key copy throws) into a bucket that
+    # already holds c = 0 .. maxCount-1 items -- in particular maxCount-1, where OpenN1/Open8 share the state byte with the last
+    # short hash -- must leave nothing behind: count, find of the failed key, traversal, shape, and a retried insert succeeds
+    for tu, names in CONFIGS.items():
+        for name in names:
+            p = params(name)
+            if p['cap'] >= BIG: capn = 3
+            else: capn = min(p['cap'], 7)
+            ls = 4 if p['native'] else max(2, min_log_start(p))
+            for hm in ((0,) if p['native'] else (0, 1)):
+                bc = 2 ** ls
+                vv = (lambda k: k % 997) if p['tagged'] else (lambda k: 0)
+                ops = []
+                for c in range(capn):
+                    ks = [(1 + bc * (j + 1)) % p['kmax'] for j in range(c + 1)]
+                    if len(set(ks)) != len(ks): continue
+                    newk = ks[-1]; pre = ks[:-1]
+                    ops += ['C 1'] + ['I %d %d' % (k, vv(k)) for k in pre]
+                    for opn in ('IF', 'IC'):
+                        ops += ['%s %d %d' % (opn, newk, vv(newk)), 'N', 'F %d' % newk, 'T', 'O', 'H']
+                    if pre: ops += ['IF %d %d' % (pre[0], 5)]                 # present key: no creator call, "0"
+                    ops += ['I %d %d' % (newk, vv(newk)), 'N', 'F %d' % newk, 'T']
+                out[tu].append(case_line(p, ls, hm, ' '.join(ops)))
     # aimed (audit): fill the table to the LAST slot through the overload path (refused bucket-array allocation), so that
     # 'Hash table is full' is really reached (Xz), then remove / find / insert again and let it grow normally
     for tu, names in CONFIGS.items():
@@ -294,6 +319,24 @@ def open8_cases(ctx, scale):
         sh = r.below(248)
         cases.append('o8 %d %s' % (sh, ' '.join(str(r.choice([sh, r.below(256), 248 + r.below(8)])) for _ in range(7))))
     return cases
+
+
+def n1ops_cases(ctx, scale):
+    """byte-for-byte: random AddCrt / Remove / Clear / UpdateMaxProbe sequences on a real BucketOpenN1<N, reverse> object vs the
+    generated Gen_OpenN1_ops functions (the ones OpenN1Ops.v proves to refine the list-level bucket)"""
+    r = ctx.rng
+    cs = []
+    for (N, R) in ((2, 1), (4, 0), (6, 1), (7, 0)):
+        for i in range(60 * scale):
+            ops = []
+            for _ in range(r.range(1, 40)):
+                x = r.below(10)
+                if x < 5: ops.append('a%d' % r.choice([r.below(2 ** 64), r.below(2 ** 40), (r.below(248) << 56) + r.below(2 ** 40)]))
+                elif x < 8: ops.append('r%d' % r.below(N))
+                elif x < 9: ops.append('u%d' % r.choice([r.below(8), r.below(300), r.below(2 ** 20)]))
+                else: ops.append('c')
+            cs.append('n1 %d %d %s' % (N, R, ' '.join(ops)))
+    return cs
 
 
 def kind_cases(ctx):
@@ -467,6 +510,12 @@ def run(ctx):
                 ctx.violation('Reserve with a boundary capacity: the container hangs / disagrees with the model (expected std::length_error for unreachable capacities)',
                               {'case': c, 'tu': tu, 'impl': a[:500], 'model': b[:500]}, found_input=True)
     if have_model:
+        n1c = n1ops_cases(ctx, scale)
+        mism, _ = ctx.correspond('openn1-ops-bytes', n1c, [exes['harness6']], [ctx.model_exe])
+        ctx.tie_obligations.append({'name': 'generated BucketOpenN1 AddCrt / Remove / Clear / UpdateMaxProbe == real object, byte for byte, on %d random op sequences' % len(n1c), 'ok': not mism})
+        for (i, c, a, b) in mism[:2]:
+            ctx.violation('BucketOpenN1 byte state after an operation sequence differs from the generated model', {'case': c, 'tu': 'harness6', 'impl': a, 'model': b}, found_input=True)
+    if have_model:
         kc = kind_cases(ctx)
         mism, _ = ctx.correspond('kind-leaves', kc, [exes['harness2']], [ctx.model_exe])
         ctx.tie_obligations.append({'name': 'generated per-kind leaves (LimP1 / Lim4 / LimP WasFull, pool index, Lim4 packing) == real functions on %d cases' % len(kc), 'ok': not mism})
@@ -504,7 +553,7 @@ def first_diff(a, b):
 
 MEAS = {}
 RULE = ('scripts = aimed random op scripts (insert / add-at-position / find / remove by key, position, predicate / extract+reinsert / '
-        'set value + ResetKey / Reserve / Clear / copy / move-assign / swap / MergeTo / extract into and insert from a holder / insert with refused allocation / failure-injected relocations; + aimed families: long constant-hash chains, stored-hash-part buckets removed slot by slot then grown) over 50 container '
+        'set value + ResetKey / Reserve / Clear / copy / move-assign / swap / MergeTo / extract into and insert from a holder / insert with refused allocation / failure-injected relocations; + aimed families: long constant-hash chains, stored-hash-part buckets removed slot by slot then grown) over 61 container '
         'configurations (17 bucket kinds x set/map x item size, alignment, category x hash-code-part getter) x 6 hash distributions x '
         'start sizes from the smallest legal table; every script ends with count, full traversal and the internal shape; '
         'distinct = distinct case line; non-trivial = the table grew at least once or reached a multi-generation state')
